@@ -419,6 +419,8 @@ class C18(CoreCheck):
         m = re.search(r"CHURN method (\S+) fds (\d+) (\d+) (\d+) (\d+) heap (\d+) (\d+) (\d+) threads (\d+)", p.stdout)
         if p.returncode != 0 or not m:
             return "thread churn program failed (rc=%d): %s %s" % (p.returncode, p.stdout[-300:], p.stderr[-2500:])
+        if "CHURN-THREADS-LEFT" in p.stdout:
+            return "threads started by the library are still alive 20 s after their loops' owners finished: " + p.stdout[-300:]
         f0, f1, f2, f3, h1, h2, h3 = [int(x) for x in m.groups()[1:8]]
         self.churn_methods.add(m.group(1))
         if not (f0 == f1 == f2 == f3):
